@@ -303,7 +303,6 @@ func layoutFromDoc(t docTable) ([]wireField, bool) {
 	return out, true
 }
 
-
 // readsOfHelper follows a field value into a small same-package helper that
 // decodes it from a buffer argument (`ts, err := unmarshalTimestamp(b)`).
 func readsOfHelper(call *ssa.Call, idx, depth int, outer func(ssa.Value) (int64, bool),
@@ -331,7 +330,6 @@ func readsOfHelper(call *ssa.Call, idx, depth int, outer func(ssa.Value) (int64,
 		}
 	}
 }
-
 
 // copiedIntoParam: v is a local variable whose whole value is stored through
 // a parameter of the function (`*recv = v`).
